@@ -220,7 +220,7 @@ def _long_worker(args):
 
 def check(tier):
     ck = core.Check("C09", tier)
-    jobs_small = [(ck.seed, i, 40 if tier == "quick" else 50, "asan" if i % 4 != 3 else "asan-small") for i in range(16 if tier == "quick" else 160)]
+    jobs_small = [(ck.seed, i, 40 if tier == "quick" else 50, "asan" if i % 4 != 3 else "asan-small") for i in range(16 if tier == "quick" else 480)]
     jobs_long = []
     sizes = [2000, 5000, 12000] if tier == "quick" else [2000, 5000, 12000, 30000, 50000, 50000]
     i = 0
